@@ -1106,7 +1106,11 @@ func c17WritePackage(dir string, full c17Prog) error {
 // c17RunBinary runs the real pkglint; exit status 0 and 1 are normal, anything
 // else (a Go panic exits with 2) is reported in crashed.
 func c17RunBinary(ctx *Ctx, root, arg string) (out string, crashed string, err error) {
-	cmd := exec.Command(ctx.Pkglint, "-Wall", arg)
+	return c17RunBinaryArgs(ctx, root, []string{"-Wall", arg})
+}
+
+func c17RunBinaryArgs(ctx *Ctx, root string, args []string) (out string, crashed string, err error) {
+	cmd := exec.Command(ctx.Pkglint, args...)
 	cmd.Dir = root
 	b, err := cmd.CombinedOutput()
 	out = string(b)
@@ -1389,6 +1393,10 @@ func runC17(ctx *Ctx) *Result {
 	if res.Broken != "" {
 		return res
 	}
+	c17TreeLayer(ctx, res)
+	if res.Broken != "" {
+		return res
+	}
 	c17CrossCheck(ctx, res)
 	if res.Broken != "" {
 		return res
@@ -1403,8 +1411,13 @@ func runC17(ctx *Ctx) *Result {
 		"shim_verdicts_R": 1000, "shim_verdicts_N": 1000, "shim_verdicts_O": 1000,
 		"shim_verdicts_earlier_line_flagged": 100, "shim_verdicts_inside_guard": 1000,
 		"programs_random": 1000, "programs_random+include": 1000, "shim_both_panic": 100,
-		"runs_binary-package": 20, "runs_binary-standalone-mk": 5, "runs_with_verdicts": 20,
+		"runs_binary-package": 20, "runs_binary-standalone-mk": 5,
 		"binary_verdicts_R": 5, "binary_verdicts_O": 5, "binary_verdicts_N": 5,
+		"pkgtree_runs": 100, "pkgtree_runs_recursive": 30, "pkgtree_runs_with_verdicts": 60,
+		"pkgtree_verdicts_on_fragment_lines": 50, "pkgtree_verdicts_expected": 150, "pkgtree_fragment_analysed_alone": 5,
+		"pkgtree_spelling_plain": 5, "pkgtree_spelling_dot-slash": 5, "pkgtree_spelling_canonical": 10,
+		"pkgtree_spelling_curdir": 5, "pkgtree_spelling_sibling": 5,
+		"pkgtree_frag_own": 20, "pkgtree_frag_other": 10, "pkgtree_frag_shared": 10,
 	}
 	for _, k := range sortedKeys(floors) {
 		n, _ := res.Distribution[k].(int)
@@ -1418,10 +1431,18 @@ func runC17(ctx *Ctx) *Result {
 
 func replayC17(ctx *Ctx, rep map[string]any) *Result {
 	res := &Result{Rule: "replay"}
+	if l, _ := rep["layer"].(string); l == "pkgtree" {
+		c17TreeReplayRun(ctx, res, rep)
+		return res
+	}
 	h, _ := rep["program"].(string)
 	var p c17Prog
 	if err := json.Unmarshal([]byte(unhx(h)), &p); err != nil {
 		res.Broken = "replay file has no program: " + err.Error()
+		return res
+	}
+	if l, _ := rep["layer"].(string); l == "pkgtree" {
+		c17TreeReplayRun(ctx, res, rep)
 		return res
 	}
 	layer, _ := rep["layer"].(string)
